@@ -86,6 +86,27 @@ fn handle(parts: &[&str]) -> String {
             }
             format!("ok {}", v.join(" "))
         }
+        "comments" => {
+            // comment tokens of the parse tree in order; block comment lines are trimmed (indentation may change)
+            let s = unhex(parts[1]);
+            let src = Source::detached(s);
+            let mut out = vec![];
+            fn walk(n: &SyntaxNode, out: &mut Vec<String>) {
+                match n.kind() {
+                    SyntaxKind::LineComment => out.push(hex(n.text().trim_end())),
+                    SyntaxKind::BlockComment => {
+                        let t: Vec<&str> = n.text().lines().map(|l| l.trim()).collect();
+                        out.push(hex(&t.join("\n")))
+                    }
+                    _ => {}
+                }
+                for c in n.children() {
+                    walk(c, out);
+                }
+            }
+            walk(src.root(), &mut out);
+            format!("ok {}", out.join(" "))
+        }
         "newline_table" => {
             let mut v = vec![];
             for c in 0..=0x10FFFFu32 {
